@@ -1,4 +1,4 @@
-import UvModel.FdOps
+import UvModel.Lemmas.FdOpsLemmas
 /-! C15 property theorems (descriptor hygiene) over the catalogue semantics of `UvModel.FdOps` -/
 namespace UvModel.Props.C15
 open UvModel.FdLedger
@@ -42,20 +42,19 @@ theorem owner_unique (s : St) (prog : List (Inj × Op)) :
         e1.owner = e2.owner → e1.owner.unique = true → e1.id = e2.id) :=
   ⟨(runOps s prog).l.2.id.2, (runOps s prog).l.2.uniq⟩
 
-/-- the full leak-freedom claim of the property (NOT proved in full, see `no_leak_partial`) -/
-def no_leak_statement : Prop :=
-  ∀ (prog : List (Inj × Op)) (inj : Inj),
-    let s := runOps {} prog
-    s.loopOk = true → (∀ h ∈ s.hs, h.st = .closed ∨ h.st = .dead) →
-    ∀ e ∈ (step s inj .loopClose).l.1.led, e.owner = .user ∨ ∃ i, e.owner = .glob i
+/-- every operation sequence, with any injected failures, keeps the ledger clean: no local of a finished
+    operation and no orphan is left open, and handle-owned descriptors belong to live handles -/
+theorem clean_always (prog : List (Inj × Op)) : Clean (runOps {} prog) := by
+  unfold runOps
+  generalize hs : ({} : St) = s0
+  have h0 : Clean s0 := hs ▸ clean_init
+  clear hs
+  induction prog generalizing s0 with
+  | nil => exact h0
+  | cons io prog ih => exact ih _ (clean_step h0 io.1 io.2)
 
-/-- **no_leak (partial)**: a successful uv_loop_close releases every loop-owned descriptor, on a state
-    whose ledger is clean (every libuv-owned descriptor is held by a loop field, by the signal lock
-    pipe, or by the caller — i.e. all handles have been closed and no operation left an orphan).
-    What is missing for `no_leak_statement`: that every operation of the catalogue preserves
-    "no `temp`/`leaked` owner and handle-owned descriptors only on live handles"; the driver evaluates
-    exactly that predicate after every op of every generated program (`own … :-` entries), and the
-    harness's LEAK monitor checks it on the real descriptor table. -/
+/-- the last step of `no_leak`: a successful uv_loop_close releases every loop-owned descriptor of a state
+    whose remaining libuv descriptors are loop fields and the lock pipe -/
 theorem no_leak_partial (s : St) (inj : Inj) (hok : s.loopOk = true)
     (hh : ∀ h ∈ s.hs, h.st = .closed ∨ h.st = .dead)
     (hclean : ∀ e ∈ s.l.1.led, e.owner = .user ∨ (∃ i, e.owner = .glob i) ∨ ∃ f, e.owner = .loop f) :
@@ -74,6 +73,36 @@ theorem no_leak_partial (s : St) (inj : Inj) (hok : s.loopOk = true)
   · exact Or.inr h1
   · exact absurd h1 (hl f)
 
+
+/-- **no_leak**: for every operation sequence and every injected failure schedule (bind/connect/listen/
+    open/spawn errors, EMFILE at any fd-creating call, …): once all handles are closed (or never came to life)
+    and uv_loop_close succeeds, the only descriptors left are the caller's own and the two ends of the
+    once-per-process signal lock pipe. -/
+theorem no_leak (prog : List (Inj × Op)) (inj : Inj)
+    (hok : (runOps {} prog).loopOk = true)
+    (hh : ∀ h ∈ (runOps {} prog).hs, h.st = .closed ∨ h.st = .dead) :
+    ∀ e ∈ (step (runOps {} prog) inj .loopClose).l.1.led, e.owner = .user ∨ ∃ i, e.owner = .glob i := by
+  apply no_leak_partial _ inj hok hh
+  intro e he
+  have hc := clean_always prog e.owner ⟨e, he, rfl⟩
+  cases ho : e.owner with
+  | user => exact Or.inl rfl
+  | glob i => exact Or.inr (Or.inl ⟨i, rfl⟩)
+  | loop f => exact Or.inr (Or.inr ⟨f, rfl⟩)
+  | handle h sl =>
+    exfalso
+    rw [ho] at hc
+    obtain ⟨k, hk, _⟩ := hc
+    unfold kindOf at hk
+    split at hk
+    · rename_i x hx
+      split at hk
+      · rename_i hst
+        rcases hh x (List.mem_of_getElem? hx) with h1 | h1 <;> simp [h1] at hst
+      · cases hk
+    · cases hk
+  | temp k => rw [ho] at hc; exact hc.elim
+  | leaked => rw [ho] at hc; exact hc.elim
 
 /-! ### non-vacuity: concrete programs reach non-trivial states and exercise the events the theorems speak about -/
 
